@@ -2,7 +2,9 @@ package c13
 
 import (
 	"bytes"
+	"encoding/hex"
 	"fmt"
+	"math/big"
 	"os"
 	"path/filepath"
 	"strings"
@@ -59,7 +61,7 @@ type env struct {
 	addr    string // wire level: the accessory's address
 	shutCl  func() // wire level: closes a connection opened later
 	wire    bool   // wire level: a dropped connection is visible as such
-	dead    bool // the accessory announced "Connection: close" or closed the connection after a response
+	dead    bool   // the accessory announced "Connection: close" or closed the connection after a response
 	ctrl    *refctl.Controller
 	srp     *refctl.SRPClient   // after setup M2/M4
 	m2      refctl.SetupM2      // setup M2
@@ -345,11 +347,57 @@ var jsonBodies = []string{
 
 var queries = []string{"", "?id=", "?id=1", "?id=1.", "?id=.1", "?id=1.2.3", "?id=a.b", "?id=-1.-1", "?id=1.2,", "?id=,", "?id=99999999999999999999.1", "?id=1e3.2", "?id=2.%IID%,2.%IID%", "?id=2.%IID%&meta=1&perms=1&type=1&ev=1", "?id=%zz", "?id=2.%IID%;x", "?ID=1.1", "?id=1.1&id=2.2", "?id=0x1.0x2", "?id=+1.+2", "?id= 1.1"}
 
+// Curve25519 u-coordinates of small order (and their non-canonical twins), the values every X25519
+// implementation is told to look out for, plus the all-ones string.
+var specialCurvePoints = []string{
+	"0000000000000000000000000000000000000000000000000000000000000000",
+	"0100000000000000000000000000000000000000000000000000000000000000",
+	"e0eb7a7c3b41b8ae1656e3faf19fc46ada098deb9c32b1fd866205165f49b800",
+	"5f9c95bca3508c24b1d0b1559c83ef5b04445cc4581c8e86d8224eddd09f1157",
+	"ecffffffffffffffffffffffffffffffffffffffffffffffffffffffffffff7f",
+	"edffffffffffffffffffffffffffffffffffffffffffffffffffffffffffff7f",
+	"eeffffffffffffffffffffffffffffffffffffffffffffffffffffffffffff7f",
+	"cdeb7a7c3b41b8ae1656e3faf19fc46ada098deb9c32b1fd866205165f49b880",
+	"4c9c95bca3508c24b1d0b1559c83ef5b04445cc4581c8e86d8224eddd09f11d7",
+	"d9ffffffffffffffffffffffffffffffffffffffffffffffffffffffffffffff",
+	"daffffffffffffffffffffffffffffffffffffffffffffffffffffffffffffff",
+	"dbffffffffffffffffffffffffffffffffffffffffffffffffffffffffffffff",
+	"ffffffffffffffffffffffffffffffffffffffffffffffffffffffffffffffff",
+}
+
+// SRP public values that are 0 modulo N, or next to it, in 384 bytes.
+func specialSRPValues() [][]byte {
+	fit := func(x *big.Int) []byte {
+		b := x.Bytes()
+		if len(b) > 384 {
+			return b[len(b)-384:]
+		}
+		return append(make([]byte, 384-len(b)), b...)
+	}
+	n := refctl.SRPN
+	one := big.NewInt(1)
+	return [][]byte{
+		fit(big.NewInt(0)), fit(one), fit(n), fit(new(big.Int).Sub(n, one)), fit(new(big.Int).Add(n, one)),
+		fit(new(big.Int).Sub(new(big.Int).Lsh(one, 3072), one)), bytes.Repeat([]byte{0xff}, 384),
+		new(big.Int).Lsh(n, 1).Bytes(), // 2N: 385 bytes
+	}
+}
+
 func genHostile(t *rapid.T, e *env) hostile {
 	iids := []uint64{e.tb.Text.ID, e.tb.Blob.ID, e.tb.Bulb.Lightbulb.On.ID, e.tb.Bulb.Lightbulb.Brightness.ID, e.tb.RO.ID, e.tb.Secret.ID, e.tb.Remote.ID, e.tb.Remote.ID, e.tb.Volume.ID, 1, 999}
 	iid := fmt.Sprint(rapid.SampledFrom(iids).Draw(t, "iid"))
 	sub := func(s string) string { return strings.Replace(s, "%IID%", iid, -1) }
-	switch rapid.SampledFrom([]string{"pairing-mutated", "pairing-mutated", "pairing-mutated", "pairing-raw", "json", "json-deep", "query", "pairings", "method", "raw-anywhere"}).Draw(t, "hkind") {
+	switch rapid.SampledFrom([]string{"pairing-mutated", "pairing-mutated", "pairing-mutated", "pairing-raw", "json", "json-deep", "query", "pairings", "method", "raw-anywhere", "special-keys"}).Draw(t, "hkind") {
+	case "special-keys":
+		// key material with the right length and a value the arithmetic treats specially
+		if rapid.Bool().Draw(t, "curve") {
+			k := rapid.SampledFrom(specialCurvePoints).Draw(t, "point")
+			b, _ := hex.DecodeString(k)
+			return hostile{"POST", "/pair-verify", refctl.ContentTLV8, refctl.VerifyM1(b), "verify-start-special-point"}
+		}
+		a := rapid.SampledFrom(specialSRPValues()).Draw(t, "A")
+		proof := rapid.SliceOfN(rapid.Byte(), 64, 64).Draw(t, "proof")
+		return hostile{"POST", "/pair-setup", refctl.ContentTLV8, refctl.SetupM3(a, proof), "setup-verify-special-A"}
 	case "pairing-mutated":
 		setup := rapid.Bool().Draw(t, "setup")
 		path := "/pair-verify"
@@ -389,14 +437,20 @@ func genHostile(t *rapid.T, e *env) hostile {
 		items := []refctl.Item{{Tag: refctl.TagState, Value: []byte{1}}, {Tag: refctl.TagMethod, Value: []byte{method}}}
 		if rapid.Bool().Draw(t, "withid") {
 			// mostly identifier-sized, sometimes far longer than any file name the storage can create
-			id := rapid.OneOf(rapid.SliceOfN(rapid.Byte(), 0, 70), rapid.SliceOfN(rapid.Byte(), 100, 300), rapid.SliceOfN(rapid.ByteRange('a', 'z'), 100, 600)).Draw(t, "id")
+			id := rapid.OneOf(rapid.SliceOfN(rapid.Byte(), 0, 70), rapid.SliceOfN(rapid.Byte(), 100, 300), rapid.SliceOfN(rapid.ByteRange('a', 'z'), 100, 600),
+				// identifiers the accessory already knows: its paired controllers and itself
+				rapid.SampledFrom([][]byte{[]byte(e.ctrl.ID), []byte("odd-key-controller"), []byte("recovery-added"), []byte("AA:BB:CC:DD:EE:FF"), {}}),
+				rapid.SampledFrom([][]byte{[]byte(e.ctrl.ID), []byte("odd-key-controller")})).Draw(t, "id")
+			if string(id) == e.ctrl.ID || string(id) == "odd-key-controller" {
+				longID = "-known-id"
+			}
 			items = append(items, refctl.Item{Tag: refctl.TagIdentifier, Value: id})
 			if len(id) >= 100 {
 				longID = "-long-id"
 			}
 		}
 		if rapid.Bool().Draw(t, "withkey") {
-			items = append(items, refctl.Item{Tag: refctl.TagPublicKey, Value: rapid.SliceOfN(rapid.Byte(), 0, 40).Draw(t, "key")})
+			items = append(items, refctl.Item{Tag: refctl.TagPublicKey, Value: rapid.OneOf(rapid.SliceOfN(rapid.Byte(), 0, 40), rapid.SliceOfN(rapid.Byte(), 32, 32), rapid.Just([]byte(e.ctrl.LTPK))).Draw(t, "key")})
 		}
 		if rapid.Bool().Draw(t, "withperm") {
 			items = append(items, refctl.Item{Tag: refctl.TagPermissions, Value: []byte{rapid.Byte().Draw(t, "perm")}})
